@@ -1,5 +1,7 @@
 import TcheranVerif.Model.Search
 import TcheranVerif.Proofs.SearchSound
+import TcheranVerif.Proofs.SearchTerminal
+import TcheranVerif.Proofs.SearchReach
 /-!
 # C08 — mate announcements: the score ↔ distance arithmetic (theorems), lines by oracle
 
@@ -9,9 +11,15 @@ score relative to the position and reading it back at the same ply returns the s
 tables hold and wherever it is stopped, is a non-empty sequence of moves each legal in the position reached
 by the ones before it (`LegalLine`, from the root) — by the induction of `Proofs/SearchSound.lean`, under
 the stated key-faithfulness assumption. **`reported_depths`**: the reported depths are 1, 2, …, k with
-k at most the requested limit. That the *length* of a line matches a mate announcement and that its last
-position is mate (DESIGN App. B S6) is checked on every info line of every iteration against the Rules
-specification and by verbatim agreement with the search model: partial.
+k at most the requested limit. **`mate_born_at_checkmate`** (`Proofs/SearchTerminal.lean`): a node scores itself
+`mated_in(plies)` or `0` without a move only when its move loop ends with no move searched, and that happens only
+if the position has **no legal move** (the picker's first answer is "no move" only when the generator produced
+nothing — C10 — and the generator is exact — C01): the mate score is born exactly at a node the rules call
+checkmate, at distance `plies`, the stalemate score exactly at a stalemate. **`static_scores_not_mate`**: no static
+evaluation anywhere a search goes lies in the mate range (C16), so every mate score in the tree descends from such
+a node. What remains of DESIGN App. B S6 — that the *reported line* has the matching length (the propagation of
+the born score through table cut-offs and the PV buffer) — is checked on every info line of every iteration
+against the Rules specification and by verbatim agreement with the search model: partial.
 -/
 namespace Tcheran.Props.C08
 open Tcheran Tcheran.Search
@@ -83,6 +91,47 @@ theorem reported_depths (fuel : Nat) (g : Game) (tt : TT.Table) (history : Array
 theorem legal_line_playable (g : Game) (m : Move) (rest : List Move) (h : LegalLine g (m :: rest)) :
     m ∈ Rules.legalMoves (Rules.ofGame g) ∧ ∃ g', Game.makeMove theCfg g m = some g' ∧ LegalLine g' rest := h
 
+open Rules in
+/-- **mate_born_at_checkmate**: the move loop of a node (fresh picker, hash move legal or none — which `TTGood`
+guarantees) ending with no move searched means the position has no legal move; with the node's check verdict
+(= the rules', C01) the score then returned is `mated_in(plies)` exactly for a checkmate and `0` exactly for a
+stalemate -/
+theorem mate_born_at_checkmate (T : SliderTables) (fuel : Nat) (g : Game) (hs : SInv g) (alpha0 beta : Int)
+    (plies : Nat) (inCheck : Bool) (hchk : kingInCheck g.board g.player = some inCheck)
+    (depth : Nat) (ev : Int) (nm : NodeMoves) (hnm : nodeMoves g = some nm)
+    (prevBest : Option Move) (hpb : ∀ h, prevBest = some h → h ∈ legalMoves (ofGame g))
+    (alpha : Int) (pv : List Move) (c : Search.Ctx) (b' : TT.Bound) (bm' : Option Move) (be' : Int) (pv' : List Move)
+    (c' : Search.Ctx)
+    (hloop : negamax.loop fuel g alpha0 beta plies inCheck depth ev nm 300 (Picker.new prevBest) alpha .upper none
+        i16Min 0 pv c = (.ok (b', bm', be', 0), pv', c')) :
+    isCheckmate (ofGame g) = inCheck ∧ isStalemate (ofGame g) = !inCheck ∧
+    (finishNode g depth plies inCheck b' bm' be' 0 pv' c').res = .ok (if inCheck then matedIn plies else 0) := by
+  obtain ⟨hno, hfin⟩ := terminal_verdict T fuel g hs alpha0 beta plies inCheck depth ev nm hnm prevBest hpb alpha pv c
+    b' bm' be' pv' c' hloop
+  obtain ⟨kk, hkk⟩ := hs.2.king g.player
+  have hic : inCheck = Rules.inCheck g.board.squares g.player := by
+    have := kingInCheck_agrees T g.board hs.1 g.player kk (kingSq_unique _ _ kk hkk)
+    rw [hchk] at this
+    exact Option.some.inj this
+  refine ⟨?_, ?_, hfin⟩
+  · unfold isCheckmate
+    rw [hno]
+    show (Rules.inCheck g.board.squares g.player && true) = inCheck
+    rw [← hic, Bool.and_true]
+  · unfold isStalemate
+    rw [hno]
+    show (!(Rules.inCheck g.board.squares g.player) && true) = !inCheck
+    rw [← hic, Bool.and_true]
+
+open Rules in
+/-- **static_scores_not_mate**: at every position a search from a legal root can reach, the static evaluation
+(stand-pat value, leaf value of quiescence) is outside the mate range -/
+theorem static_scores_not_mate (T : SliderTables) (root : Game) (hs : Sync theCfg root)
+    (hl : legalPos (ofGame root) = true) (n : Nat) (g : Game) (hr : ReachN root n g) :
+    ∃ v, Eval.eval g = some v ∧ isMateInMoves v = none := by
+  obtain ⟨v, hv, _, _, hm⟩ := reach_eval T root hs hl n g hr
+  exact ⟨v, hv, hm⟩
+
 example : isMateInMoves (mateIn 3) = some 2 := by decide
 example : isMateInMoves (matedIn 4) = some (-2) := by decide
 
@@ -97,3 +146,5 @@ end Tcheran.Props.C08
 #print axioms Tcheran.Props.C08.reported_lines_legal
 #print axioms Tcheran.Props.C08.reported_depths
 #print axioms Tcheran.Props.C08.legal_line_playable
+#print axioms Tcheran.Props.C08.mate_born_at_checkmate
+#print axioms Tcheran.Props.C08.static_scores_not_mate
